@@ -458,7 +458,7 @@ def step (s : State) : Op → R
   | .pause n a => stepPause s n a
   | .edit m => stepEdit s m
   | .respond acc cbs => if acc then .ok (applyCbs s cbs) else .error (.reject "service refused the response")
-  | .block dt cbs => .ok { applyCbs s cbs with now := (applyCbs s cbs).now + dt * 1000000000 }
+  | .block dt cbs => .ok { applyCbs s cbs with now := (applyCbs s cbs).now + 1000000000 * dt }
   | .bank => .ok s
 
 /-- the chain-level step: a rejected message leaves the state unchanged -/
